@@ -2,101 +2,6 @@ use verif_core::*;
 
 pub mod c16;
 
-pub type RunFn = fn(&mut Ctx);
-pub type ReplayFn = fn(&serde_json::Value, &KnownFindings) -> Result<(), Failure>;
-
-pub struct Prop {
-    pub id: &'static str,
-    pub run: RunFn,
-    pub replay: ReplayFn,
-}
-
 pub fn table() -> Vec<Prop> {
     vec![Prop { id: "C16", run: c16::run, replay: c16::replay }]
-}
-
-/// Generic driver shared by all properties:
-///  1. `--replay F`: re-execute one saved case through the oracle (strict: nothing tolerated).
-///  2. otherwise: decide which open known findings are still active (their saved replay still
-///     fails with the listed fingerprint), replay every regression input, then run the search.
-pub fn dispatch(args: &Args) -> i32 {
-    let Some(p) = table().into_iter().find(|p| p.id == args.property) else {
-        eprintln!("unknown property {}", args.property);
-        return 2;
-    };
-    if let Some(path) = &args.replay {
-        let case = match load_case(path) {
-            Ok(c) => c,
-            Err(e) => {
-                eprintln!("{e}");
-                return 2;
-            }
-        };
-        let none = KnownFindings::default();
-        return match catch(|| (p.replay)(&case, &none)) {
-            Ok(Ok(())) => {
-                println!("replay {path}: property held");
-                0
-            }
-            Ok(Err(f)) => {
-                println!("VIOLATION property={} replay={}", p.id, path);
-                println!("  rule={} fingerprint={}", f.rule, f.fingerprint);
-                println!("  detail: {}", f.detail);
-                1
-            }
-            Err(pm) => {
-                println!("VIOLATION property={} replay={}", p.id, path);
-                println!("  harness panic: {pm}");
-                1
-            }
-        };
-    }
-    let mut ctx = Ctx::new(p.id, args.tier, args.seed);
-    // known findings: active iff open and the saved input still fails with the listed fingerprint
-    let none = KnownFindings::default();
-    for k in ctx.kf.for_property(p.id) {
-        let Some(rp) = &k.replay else { continue };
-        let case = match load_case(rp) {
-            Ok(c) => c,
-            Err(e) => {
-                eprintln!("known finding {}: {e}", k.id);
-                return 2;
-            }
-        };
-        let want_fp = k.raw["fingerprint"].as_str().unwrap_or("").to_string();
-        let r = catch(|| (p.replay)(&case, &none));
-        let failing = match r {
-            Ok(Ok(())) => None,
-            Ok(Err(f)) => Some(f),
-            Err(pm) => Some(Failure::panic(case.clone(), &pm)),
-        };
-        match (k.status.as_str(), failing) {
-            ("open", Some(f)) if f.fingerprint == want_fp => {
-                ctx.kf.active.insert(k.id.clone());
-            }
-            ("open", Some(f)) => {
-                // fails, but differently from what is listed: report it
-                ctx.stats.fail(f);
-            }
-            ("open", None) => {}
-            (_, Some(f)) => {
-                // a fixed finding has come back
-                ctx.stats.fail(f);
-            }
-            (_, None) => {}
-        }
-    }
-    for rp in list_replays(p.id, "regress") {
-        if let Ok(case) = load_case(&rp) {
-            ctx.stats.class("regression-replays");
-            let kf = ctx.kf.clone();
-            match catch(|| (p.replay)(&case, &kf)) {
-                Ok(Ok(())) => {}
-                Ok(Err(f)) => ctx.stats.fail(f),
-                Err(pm) => ctx.stats.fail(Failure::panic(case.clone(), &pm)),
-            }
-        }
-    }
-    (p.run)(&mut ctx);
-    ctx.finish()
 }
